@@ -402,7 +402,18 @@ func (C04) NewPlan(r *core.Rand, tier string, i uint64) interface{} {
 	case 3:
 		// long / deep
 		d := []int{100, 1000, 20000}[r.Weighted([]int{6, 3, 1})]
-		switch r.Intn(4) {
+		switch r.Intn(6) {
+		case 4:
+			// one very long token: identifier, string, number, comment or regex beyond any buffer size
+			long := strings.Repeat(r.Pick([]string{"a", "ab", "é", "9", "x1"}), d/2+2100)
+			t = []byte(r.Pick([]string{"SELECT " + long + " FROM m", "SELECT f FROM m WHERE s = '" + long + "'", "SELECT f FROM \"" + long + "\"", "SELECT f FROM m /* " + long + " */ WHERE x = 1", "SELECT f FROM m WHERE t =~ /" + long + "/", "SELECT f FROM m -- " + long, "SELECT " + strings.Repeat("9", d/2+2100) + " FROM m"}))
+		case 5:
+			// a text whose length sits exactly on common buffer sizes
+			base := "SELECT f FROM m WHERE s = '"
+			for _, sz := range []int{4096, 4095, 4097, 8192}[r.Intn(4):][:1] {
+				t = []byte(base + strings.Repeat("z", sz-len(base)-1) + "'")
+			}
+			p.BufSize = 4096
 		case 0:
 			t = []byte("SELECT " + strings.Repeat("(", d) + "f" + strings.Repeat(")", d) + " FROM m")
 			p.Stream.Chunks = []int{1 << 20}
